@@ -3,6 +3,12 @@
 W5   expandCellsToDensity / expandCellsByFactor write no Circuit member other than cellWidth_
 G15  each of those writes is edge-dominated by !cellIsFixed_[i] / !isFixed(i) on the same index
 SK   a binary search over the region map must use the key the map was sorted by
+NN   non-narrowing: the value stored into cellWidth_[i] is provably >= the old width (or the old width times a factor
+     provably >= 1) from the branch conditions that dominate it, in the positive-orthant domain of order.py; a loop-invariant
+     min-clamp is the "width cap" the property exempts
+RM   the list of congested regions scanned for each cell is only ever grown or permuted (push/emplace, sort) after it is
+     filled: erase / unique / remove / resize / pop_back on it drops regions a cell may intersect
+DS   a cached result kept by a const function on the expansion path is invalidated by every writer of what it reads
 G16  computeCellExpansion is const (writes nothing); per cell exactly one factor is pushed; on the fixed branch it is the
      literal 1; on the other branch it is a running maximum started at 1
 """
@@ -31,6 +37,9 @@ def run(ctx, rep, tier):
     rep.rule("W5", "expansion functions write no Circuit member other than cellWidth_", 2)
     rep.rule("G15", "cellWidth_ writes edge-dominated by the movable test on the same index", 2)
     rep.rule("SK", "binary searches over the congestion regions use the key the regions are sorted by", 1)
+    rep.rule("NN", "no movable cell is made narrower: stored width >= old width, proved from the dominating guards", 2)
+    rep.rule("RM", "the scanned region list is only grown or permuted, never pruned", 1)
+    rep.rule("DS", "derived state on the expansion path is invalidated by every writer of its inputs", 1)
     rep.rule("G16", "computeCellExpansion: const, one factor per cell, 1 for fixed cells, running max from 1 otherwise", 3)
     trans = eff.transitive()
     for q in ("Circuit::expandCellsToDensity", "Circuit::expandCellsByFactor"):
@@ -72,6 +81,26 @@ def run(ctx, rep, tier):
             else:
                 rep.violation("G15", u.node, f, "cellWidth_[%s] written without a dominating movable test on that index" % pretty(idx),
                               "a fixed cell's width could change", key="%s|unguarded width write" % f.short)
+    # ---- NN ----
+    for q in ("Circuit::expandCellsToDensity", "Circuit::expandCellsByFactor"):
+        check_non_narrowing(ctx, rep, prog.func1(CQ + q))
+    # ---- DS ----
+    from .common import check_derived_state
+    scope = set()
+    for q in ("Circuit::expandCellsToDensity", "Circuit::expandCellsByFactor", "Circuit::computeCellExpansion"):
+        f0 = prog.func1(CQ + q)
+        for k in trans[f0.key]["calls"] | {f0.key}:
+            g0 = prog.funcs.get(k)
+            if g0 is not None and g0.kind == "CXXMethodDecl" and g0.is_const:
+                scope.add(g0.short)
+    before = len(rep.instances) if hasattr(rep, "instances") else None
+    nds = check_derived_state(ctx, rep, "DS", prog, scope=scope)
+    if nds == 0:
+        rep.unknown("DS", None, None, "const functions on the expansion path", "none found (shape changed)")
+    elif not any(i.get("rule") == "DS" for i in getattr(rep, "instances", [])):
+        rep.holds("DS", "-", None, "%d const functions reachable from the expansion entry points keep no derived state" % nds)
+    # ---- RM ----
+    check_region_list(ctx, rep, prog.func1(CQ + "Circuit::computeCellExpansion"))
     # ---- SK ----
     from .common import check_sort_keys
     n = check_sort_keys(ctx, rep, "SK", [prog.func1(CQ + "Circuit::computeCellExpansion")])
@@ -147,3 +176,326 @@ def run(ctx, rep, tier):
                               key="Circuit::computeCellExpansion|movable factor")
         else:
             rep.violation("G16", x, f, "factor pushed without a fixedness test", "", key="Circuit::computeCellExpansion|push outside fixedness test")
+
+
+PERMUTE_OR_READ = {"sort", "stable_sort", "reverse", "shuffle", "lower_bound", "upper_bound", "partition_point", "binary_search",
+                   "equal_range", "find", "find_if", "for_each", "max_element", "min_element", "accumulate", "count_if", "any_of",
+                   "all_of", "none_of", "is_sorted"}
+PRUNING = {"unique", "remove", "remove_if", "erase", "erase_if", "partition", "stable_partition", "copy_if", "fill", "transform", "swap_ranges"}
+GROW = {"push_back", "emplace_back", "reserve", "begin", "end", "cbegin", "cend", "size", "empty", "operator[]", "at", "front", "back",
+        "data", "insert", "shrink_to_fit", "capacity"}
+SHRINK = {"erase", "pop_back", "resize", "clear", "assign", "swap", "operator="}
+
+
+def check_region_list(ctx, rep, f):
+    """RM: find the local container scanned for intersecting regions (the range of a loop / search inside the cell loop whose
+    elements are tested with Rectangle::intersects) and classify every use of that container."""
+    from ..model import desugared
+    conts = {}
+    for x in walk(f.body):
+        if x.get("kind") == "CXXMemberCallExpr":
+            ci = callee_info(x)
+            if ci and ci["name"] == "intersects":
+                # climb to the enclosing range-for and take its range
+                p = x.get("_p")
+                while p is not None and p is not f.body:
+                    if p.get("kind") == "CXXForRangeStmt":
+                        ch = [c for c in inner(p) if isinstance(c, dict)]
+                        rng = ch[1] if len(ch) > 1 else None
+                        vd = [d for d in inner(rng) if d.get("kind") == "VarDecl"] if rng and rng.get("kind") == "DeclStmt" else []
+                        if vd and children(vd[0]):
+                            c = canon(children(vd[0])[-1])
+                            if c[0] == "var":
+                                conts[c[1]] = c
+                        break
+                    if p.get("kind") == "ForStmt":
+                        info = for_loop_info(p)
+                        if info and info["hi"] and info["hi"][0] == "call" and info["hi"][1] == "size" and info["hi"][2][0] == "var":
+                            conts[info["hi"][2][1]] = info["hi"][2]
+                        break
+                    p = p.get("_p")
+    if not conts:
+        # a binary-search based scan: the container handed to the search
+        for x in walk(f.body):
+            if x.get("kind") == "CallExpr":
+                ci = callee_info(x)
+                if ci and ci["name"] in ("lower_bound", "upper_bound", "partition_point", "equal_range") and ci["args"]:
+                    a = canon(ci["args"][0])
+                    if a[0] == "call" and a[1] in ("begin", "cbegin") and a[2][0] == "var":
+                        conts[a[2][1]] = a[2]
+    if not conts:
+        rep.unknown("RM", f.decl, f, "region scan", "no loop or search over a local region list that tests Rectangle::intersects was found")
+        return
+    for vid, c in conts.items():
+        d = f.unit.by_id.get(vid)
+        if d is None or d.get("kind") == "ParmVarDecl":
+            rep.holds("RM", f.decl, f, "the scan runs over the parameter %s itself" % c[2], "nothing to prune")
+            continue
+        bad, unk, n = [], [], 0
+        for r in ctx.eff.var_refs(f, vid):
+            n += 1
+            p = r.get("_p")
+            while p is not None and p.get("kind") in ("ImplicitCastExpr", "ParenExpr", "MaterializeTemporaryExpr"):
+                p = p.get("_p")
+            if p is None:
+                continue
+            k = p.get("kind")
+            if k == "MemberExpr":
+                call = p.get("_p")
+                name = p.get("name")
+                if name in SHRINK:
+                    bad.append((call or p, name))
+                elif name in ("begin", "end", "cbegin", "cend"):
+                    # which algorithm receives the iterator?
+                    q = call
+                    while q is not None and q.get("kind") not in ("CallExpr", "CXXMemberCallExpr", "CXXConstructExpr", "DeclStmt", "CompoundStmt") or q is call:
+                        q = q.get("_p") if q is not None else None
+                        if q is None:
+                            break
+                    if q is not None and q.get("kind") in ("CallExpr", "CXXMemberCallExpr"):
+                        ci = callee_info(q)
+                        nm = ci["name"] if ci else None
+                        if nm in PRUNING or nm in SHRINK:
+                            bad.append((q, nm))
+                        elif nm not in PERMUTE_OR_READ and nm not in GROW:
+                            unk.append((q, nm))
+                elif name not in GROW:
+                    unk.append((call or p, name))
+            elif k == "CXXOperatorCallExpr":
+                ci = callee_info(p)
+                if ci and ci["name"] == "operator=" and strip(children(p)[1]) is strip(r):
+                    bad.append((p, "operator="))
+        for x, nm in bad:
+            rep.violation("RM", x, f, "the region list %s is pruned with %s before the per-cell scan" % (c[2], nm),
+                          "a region a cell intersects can be dropped, so the cell does not get the largest factor", key="%s|region list pruned (%s)" % (f.short, nm))
+        for x, nm in unk:
+            rep.unknown("RM", x, f, "use of the region list %s through %s" % (c[2], nm), "not a known growing, permuting or reading operation")
+        if not bad and not unk:
+            rep.holds("RM", d, f, "%d uses of the region list %s only grow, permute or read it" % (n, c[2]))
+
+
+# ---- NN: non-narrowing -----------------------------------------------------------------------
+
+PROVED, REFUTED, UNDECIDED = "proved", "refuted", "undecided"
+
+
+def _expand(ctx, f, c, depth=0):
+    """expand_locals, except that a local whose elements are assigned somewhere (directly or through a by-reference loop
+    variable) is not a single-definition value and stays an atom."""
+    from .common import var_write_nodes
+    if depth > 12 or not isinstance(c, tuple):
+        return c
+    if c and c[0] == "var":
+        d = f.unit.by_id.get(c[1])
+        if d is not None and d.get("kind") == "VarDecl" and d.get("_rangevar") is None:
+            init = children(d)
+            if init and not var_write_nodes(ctx, f, [c[1]]) and \
+                    not _assign_nodes(f, lambda lc: lc[0] in ("elem", "index") and lc[1] == c):
+                return _expand(ctx, f, canon(init[-1]), depth + 1)
+        return c
+    return tuple(_expand(ctx, f, x, depth + 1) if isinstance(x, tuple) else x for x in c)
+
+
+def _facts_at(ctx, f, node, hyp=None):
+    from ..order import Facts
+    expand_locals = _expand
+    F = Facts()
+    g = cfg_of(f)
+    site = g.node_for(node)
+    if site is None:
+        return F
+    for ast, val, en in g.dom_edges(site):
+        if not isinstance(val, bool):
+            continue
+        c = canon(ast)
+        st, _w = stable_between(ctx, f, vars_in(c), en, site)
+        if not st:
+            continue
+        F.add_cond(expand_locals(ctx, f, c), val)
+    for k, v in (hyp or {}).items():
+        F.hyp_lb[k] = v
+    return F
+
+
+def _assign_nodes(f, pred):
+    """(node, lhs canon, op, rhs canon or None) for every assignment-like node in f whose LHS satisfies pred."""
+    out = []
+    for x in walk(f.body):
+        k = x.get("kind")
+        if k in ("BinaryOperator", "CompoundAssignOperator") and x.get("opcode") in ("=", "+=", "-=", "*=", "/="):
+            l, r = children(x)
+            lc = canon(l)
+            if pred(lc):
+                out.append((x, lc, x.get("opcode"), canon(r)))
+        elif k == "UnaryOperator" and x.get("opcode") in ("++", "--"):
+            lc = canon(children(x)[0])
+            if pred(lc):
+                out.append((x, lc, x.get("opcode"), None))
+    return out
+
+
+def _loop_invariant(ctx, f, c, site_node):
+    """All local variables in c are declared outside every loop that encloses site_node."""
+    loops = []
+    p = site_node.get("_p")
+    while p is not None and p is not f.body:
+        if p.get("kind") in ("ForStmt", "CXXForRangeStmt", "WhileStmt", "DoStmt"):
+            loops.append(p)
+        p = p.get("_p")
+    if not loops:
+        return False
+    outer = loops[-1]
+    inside = {id(x) for x in walk(outer)}
+    for vid in vars_in(c):
+        d = f.unit.by_id.get(vid)
+        if d is None or id(d) in inside:
+            return False
+    return True
+
+
+def _prove_lb(ctx, f, term, bound, site, hyp, depth=0, trail=()):
+    """Decide term >= bound at AST node `site`. Returns (verdict, explanation)."""
+    from ..order import Prover, leaves
+    expand_locals = _expand
+    if depth > 6:
+        return UNDECIDED, "definition chain too deep"
+    F = _facts_at(ctx, f, site, hyp)
+    P = Prover(F)
+    t = expand_locals(ctx, f, term)
+    b = expand_locals(ctx, f, bound)
+    if P.prove_ge(t, b):
+        return PROVED, "%s >= %s from %d dominating fact(s)" % (pretty(t)[:60], pretty(b)[:30], len(F.facts))
+    # a leaf with several definitions: every definition must satisfy the bound
+    multi = None
+    for a in leaves(t):
+        if a[0] == "var":
+            d = f.unit.by_id.get(a[1])
+            if d is not None and d.get("kind") == "VarDecl" and a not in trail and \
+                    _assign_nodes(f, lambda lc, a=a: lc == a or (lc[0] in ("elem", "index") and lc[1] == a)):
+                multi = a
+                break
+        if a[0] in ("elem", "index") and a[1][0] == "var" and a not in trail:
+            d = f.unit.by_id.get(a[1][1])
+            if d is not None and d.get("kind") == "VarDecl":
+                multi = a
+                break
+    if multi is not None and t == multi:
+        return _prove_defs(ctx, f, multi, b, hyp, depth, trail + (multi,))
+    cm = P.countermodel(t, b)
+    if cm is not None and not any(a[0] == "call" and "::" in str(a[1]) and False for a in leaves(t)):
+        env, va, vb = cm
+        return REFUTED, "not implied by the dominating guards: e.g. %s gives %.4g < %.4g" % (
+            ", ".join("%s=%s" % kv for kv in sorted(env.items())[:6]), va, vb)
+    return UNDECIDED, "neither provable nor refutable here: %s >= %s" % (pretty(t)[:80], pretty(b)[:30])
+
+
+def _prove_defs(ctx, f, atom, bound, hyp, depth, trail):
+    """Every definition of the local `atom` (a scalar variable, or the elements of a local container) keeps it >= bound."""
+    results = []
+    if atom[0] == "var":
+        d = f.unit.by_id.get(atom[1])
+        init = children(d)
+        if not init:
+            return UNDECIDED, "%s has no initialiser" % atom[2]
+        results.append(_prove_lb(ctx, f, canon(init[-1]), bound, d, hyp, depth + 1, trail))
+        defs = _assign_nodes(f, lambda lc: lc == atom)
+        same = atom
+    else:
+        cont = atom[1]
+        d = f.unit.by_id.get(cont[1])
+        init = children(d)
+        ic = canon(init[-1]) if init else None
+        pd = f.unit.by_id.get(ic[1]) if ic is not None and ic[0] == "var" else None
+        if pd is not None and pd.get("kind") == "ParmVarDecl" and ("param-elems", ic[1]) in hyp:
+            lb = hyp[("param-elems", ic[1])]
+            from ..order import lit_value
+            bv = lit_value(bound)
+            if bv is not None and lb >= bv:
+                results.append((PROVED, "initial elements are those of parameter %s (>= %s by the property's domain)" % (ic[2], lb)))
+            else:
+                results.append((UNDECIDED, "initial elements come from parameter %s" % ic[2]))
+        else:
+            results.append((UNDECIDED, "initial elements of %s are not those of a parameter with a stated domain" % cont[2]))
+        defs = _assign_nodes(f, lambda lc: lc[0] in ("elem", "index") and lc[1] == cont)
+        # whole-container writes / escapes other than by-reference iteration are not understood
+        for r in ctx.eff.var_refs(f, cont[1]):
+            for u in ctx.eff.uses(r, ctx.eff.func_of_node(r) or f):
+                if u.kind != "read" and not any(x is u.node or any(y is u.node for y in walk(x)) for x, _l, _o, _r in defs):
+                    p = u.node
+                    if p.get("kind") in ("VarDecl", "CXXForRangeStmt", "DeclStmt"):
+                        continue
+                    results.append((UNDECIDED, "%s is modified through %s at %s" % (cont[2], u.why, loc_str(u.node))))
+        same = None
+    for x, lc, op, rc in defs:
+        h2 = dict(hyp)
+        cur = lc
+        h2[cur] = _as_fraction(bound)
+        if op == "=":
+            # min-clamp by a loop-invariant bound: `if (v > C) v = C;`  -> the property's width cap
+            g = cfg_of(f)
+            site = g.node_for(x)
+            clamp = False
+            for ast, val, _en in g.dom_edges(site):
+                c = canon(ast)
+                if c[0] == "bin" and val is True and ((c[1] in (">", ">=") and c[2] == lc and c[3] == rc) or (c[1] in ("<", "<=") and c[3] == lc and c[2] == rc)):
+                    clamp = True
+            if clamp and _loop_invariant(ctx, f, rc, x):
+                results.append((PROVED, "%s = %s is a loop-invariant min-clamp: the width cap the property exempts" % (pretty(lc), pretty(rc))))
+                continue
+            results.append(_prove_lb(ctx, f, rc, bound, x, h2 if h2[cur] is not None else hyp, depth + 1, trail))
+        elif op in ("++",):
+            results.append((PROVED, "%s++ only increases it" % pretty(lc)))
+        elif op == "+=":
+            results.append(_relabel(_prove_lb(ctx, f, rc, ("lit", "0"), x, hyp, depth + 1, trail), "increment"))
+        elif op == "*=":
+            results.append(_relabel(_prove_lb(ctx, f, rc, ("lit", "1"), x, hyp, depth + 1, trail), "multiplier"))
+        else:
+            results.append((UNDECIDED, "%s %s ... can decrease it" % (pretty(lc), op)))
+    if any(v == REFUTED for v, _e in results):
+        return REFUTED, "; ".join(e for v, e in results if v == REFUTED)
+    if all(v == PROVED for v, _e in results):
+        return PROVED, "all %d definition(s) of %s keep the bound: %s" % (len(results), pretty(atom), "; ".join(e for _v, e in results)[:300])
+    return UNDECIDED, "; ".join(e for v, e in results if v == UNDECIDED)
+
+
+def _relabel(res, label):
+    return res[0], "%s: %s" % (label, res[1])
+
+
+def _as_fraction(c):
+    from ..order import lit_value
+    return lit_value(c)
+
+
+def check_non_narrowing(ctx, rep, f):
+    width = CQ + "Circuit::cellWidth_"
+    writes = _assign_nodes(f, lambda lc: lc[0] == "index" and lc[1][0] == "field" and lc[1][1] == width)
+    if not writes:
+        rep.unknown("NN", f.decl, f, "width write", "no element assignment to cellWidth_ found (shape changed)")
+        return
+    # the property's domain: per-cell factor vectors handed in by the caller are >= 1
+    hyp = {}
+    for p in f.params:
+        t = (p.get("type") or {}).get("qualType", "")
+        if "vector<float>" in t or "vector<double>" in t:
+            hyp[("param-elems", p.get("id"))] = 1
+    for x, lc, op, rc in writes:
+        if op == "=":
+            v, why = _prove_lb(ctx, f, rc, lc, x, hyp)
+            what = "%s = %s keeps the width >= the old width" % (pretty(lc), pretty(rc)[:40])
+        elif op == "*=":
+            v, why = _prove_lb(ctx, f, rc, ("lit", "1"), x, hyp)
+            what = "%s *= %s multiplies the width by a factor >= 1" % (pretty(lc), pretty(rc)[:40])
+        elif op in ("+=", "++"):
+            v, why = (PROVED, "increment") if op == "++" else _prove_lb(ctx, f, rc, ("lit", "0"), x, hyp)
+            what = "%s %s only increases the width" % (pretty(lc), op)
+        else:
+            v, why = UNDECIDED, "operator %s" % op
+            what = "%s %s ..." % (pretty(lc), op)
+        if v == PROVED:
+            rep.holds("NN", x, f, what, why[:400])
+        elif v == REFUTED:
+            rep.violation("NN", x, f, "%s: a movable cell can be made narrower" % what.split(" keeps")[0].split(" multiplies")[0], why[:400],
+                          key="%s|width can shrink" % f.short)
+        else:
+            rep.unknown("NN", x, f, what, why[:400])
